@@ -231,17 +231,18 @@ def check_conversions(ctx, lib, cfg):
                 gok = gok and gi is not None and variable_variants(gi) == {"Number"}
             ctx.check(ok and gok, rule, key, f"[{cfg}] {st}: specialised Number::from::<{st}>(self) == generic {SERDE_PRIMITIVE[st]} (cast-free, same kind) {why} {gwhy if not gok else ''}", b.span)
         elif st == "f32":
-            cs = casts_in(b)
-            calls = [t for _, t in b.calls()]
-            ok = len(cs) == 1 and cs[0][1] == "f32" and cs[0][2] == "f64" and len(calls) == 1 and \
-                (calls[0].get("resolved") or "") == "<f64 as ToJmespath>::to_jmespath"
+            def widened(body, delegate):
+                """f32 -> f64 exactly (`x as f64` or `f64::from(x)`), then the one delegating call."""
+                cs_ = casts_in(body)
+                calls_ = [t for _, t in body.calls()]
+                conv = [t for t in calls_ if t["callee"] == "std::convert::From::from"]
+                rest = [t for t in calls_ if t["callee"] != "std::convert::From::from"]
+                by_cast = len(cs_) == 1 and cs_[0][1] == "f32" and cs_[0][2] == "f64" and not conv
+                by_from = not cs_ and len(conv) == 1 and conv[0].get("callee_args") == ["f64", "f32"]
+                return (by_cast or by_from) and len(rest) == 1 and (rest[0].get("resolved") or "") == delegate
+            ok = widened(b, "<f64 as ToJmespath>::to_jmespath")
             gm = lib.fn(SER + "serialize_f32")
-            gok = False
-            if gm is not None:
-                gcs = casts_in(gm)
-                gc = [t for _, t in gm.calls()]
-                gok = len(gcs) == 1 and gcs[0][1] == "f32" and gcs[0][2] == "f64" and len(gc) == 1 and \
-                    (gc[0].get("resolved") or "") == SER + "serialize_f64"
+            gok = gm is not None and widened(gm, SER + "serialize_f64")
             ctx.check(ok and gok, rule, key, f"[{cfg}] f32 widens to f64 and delegates to the f64 conversion on both paths", b.span)
         elif st == "f64":
             fc = [t for _, t in b.calls() if t["callee"] == "serde_json::Number::from_f64"]
